@@ -85,11 +85,20 @@ func main() {
 	rounds := o.Pick(14, 300)
 	seenCase := map[string]bool{}
 	seenHint := map[string]int{}
+	knownSeen := map[string]int{}
 
 	checkOne := func(ob gen.Obj, round int) {
 		fail := func(class, desc string, b []byte) {
 			if _, isMember := ob.V.(quicmemberlist.BaseMember); isMember {
 				class = "member-json-roundtrip"
+			}
+			if class == "member-json-roundtrip" || class == "reencode-map-key-order" {
+				// known-finding classes: recorded a few times, then only counted (vh.Result keeps 200 failures)
+				knownSeen[class]++
+				if knownSeen[class] > 8 {
+					res.Dist("oracle_fail:" + class)
+					return
+				}
 			}
 			res.Fail(class, ob.Kind+": "+desc, replay{o.Seed, ob.Kind, string(b)})
 		}
